@@ -790,12 +790,15 @@ func RunCase(r *hk.Run, s *Set, sc *Schedule, obsEvery bool) caseResult {
 		if hung {
 			return
 		}
-		d, p := op("dump"), op("pend")
-		if hung {
+		if staleRows {
+			op("dumpx")
+			if !hung {
+				res.finalDump, res.finalPend = "stale", "stale"
+			}
 			return
 		}
-		if staleRows {
-			res.finalDump, res.finalPend = "stale", "stale"
+		d, p := op("dump"), op("pend")
+		if hung {
 			return
 		}
 		for _, row := range strings.Split(d, ";") {
@@ -859,8 +862,10 @@ func RunCase(r *hk.Run, s *Set, sc *Schedule, obsEvery bool) caseResult {
 				if out == "err" {
 					// nothing of the failed arrival may be visible anywhere: live == reload right now
 					r.Hit("fault:" + kind + ":receive-failed")
-					op("dump")
-					op("pend")
+					if !staleRows {
+						op("dump")
+						op("pend")
+					}
 					observe(fmt.Sprintf("after the failed arrival %d (%s fails)", i+1, kind))
 					// ... and the blob can be received again
 					if out2 := op(fmt.Sprintf("recv %d", id)); out2 != "ok" && out2 != "hang" {
